@@ -15,6 +15,7 @@
     "X-Bar" = [88,45,66,97,114]       "x-" = [120,45]
 -/
 import FwdVerif.Lemmas.C16
+import FwdVerif.Lemmas.C16Stack
 
 namespace FwdVerif
 namespace C16
@@ -182,6 +183,176 @@ theorem c16_dispatch (l : RuleList) (m : Msg) :
 
 example : appliesTo .connectHeader .connectRequest = true ∧
     appliesTo .header .connectRequest = false := by decide
+
+/-! ## E. The rules on the message that is actually forwarded: `User-Agent` and `Authorization`
+
+  `runStack order cred rs h` runs the stages of `HTTPProxy.middlewareStack` (user rules,
+  `setBasicAuth`, `setEmptyUserAgent`) in the given order over the header map `h` the rules see;
+  `writtenUA` is the `User-Agent` line of net/http's `Request.write` (`none` = no such line; the
+  library default "Go-http-client/1.1" when the map has no such key).  `stackOrder` is the order of
+  the code.  Byte strings:  "User-Agent" = `uaKey`, "Authorization" = `authKey`,
+  "curl/8.0" = [99,117,114,108,47,56,46,48], "probe/1.0" = [112,114,111,98,101,47,49,46,48],
+  "Basic c2l0ZQ==" = [66,97,115,105,99,32,99,50,108,48,90,81,61,61], "Bearer r" = [66,101,97,114,101,114,32,114] -/
+
+/-- whatever the rules do, the written request never carries the library's default: after the stack
+    the map always has the key `User-Agent` -/
+theorem c16_stack_user_agent_key_present (cred : Option Bytes) (rs : List Rule) (h : HMap) :
+    (HMap.get (runStack stackOrder cred rs h) uaKey).isSome = true := by
+  rw [runStack_stackOrder]
+  exact get_setEmptyUserAgent_ua_isSome _
+
+example : (HMap.get (runStack stackOrder none [.remove uaKey] [(uaKey, [[99, 117, 114, 108, 47, 56, 46, 48]])])
+    uaKey) = some [[]] := by decide
+
+/-- the `User-Agent` line the hop receives is decided by the rules alone: it is the FIRST value the
+    rules leave under `User-Agent`, trimmed (net/http writes one value only), and there is no line at
+    all when the rules leave no such field or an empty first value -/
+theorem c16_stack_written_user_agent (cred : Option Bytes) (rs : List Rule) (h : HMap) :
+    hopUA stackOrder cred rs h =
+      uaLineOfValues (HMap.get (applyRules rs h) uaKey) := by
+  unfold hopUA
+  rw [runStack_stackOrder, writtenUA_setEmptyUserAgent, get_setBasicAuth_ua]
+
+-- client sent "curl/8.0", rule "User-Agent: probe/1.0": the hop receives the first value only
+example : hopUA stackOrder none [.add uaKey [112, 114, 111, 98, 101, 47, 49, 46, 48]]
+    [(uaKey, [[99, 117, 114, 108, 47, 56, 46, 48]])] = some [99, 117, 114, 108, 47, 56, 46, 48] := by decide
+
+/-- `-User-Agent` (any spelling) as the last rule that is applied: NO `User-Agent` line is written,
+    whatever the client sent, whatever the other rules did and whether or not site credentials are
+    configured -/
+theorem c16_stack_remove_user_agent (cred : Option Bytes) (rs : List Rule) (h : HMap) {n : Bytes}
+    (hn : canonicalKey n = uaKey) : hopUA stackOrder cred (rs ++ [.remove n]) h = none := by
+  rw [c16_stack_written_user_agent, applyRules_append_one]
+  have := get_goDel_self (applyRules rs h) n
+  rw [hn] at this
+  simp only [applyRule, this, uaLineOfValues]
+
+example : canonicalKey [117, 115, 101, 114, 45, 97, 103, 101, 110, 116] = uaKey ∧          -- "user-agent"
+    hopUA stackOrder none [.remove [117, 115, 101, 114, 45, 97, 103, 101, 110, 116]]
+      [(uaKey, [[99, 117, 114, 108, 47, 56, 46, 48]])] = none := by decide
+
+/-- `-prefix*` with a prefix of "User-Agent" (whatever the case) as the last rule: no `User-Agent`
+    line is written -/
+theorem c16_stack_remove_prefix_user_agent (cred : Option Bytes) (rs : List Rule) (h : HMap) {p : Bytes}
+    (hp : prefixFold p uaKey = true) : hopUA stackOrder cred (rs ++ [.removePrefix p]) h = none := by
+  rw [c16_stack_written_user_agent, applyRules_append_one]
+  have := get_removeByPrefix_self (applyRules rs h) hp canonicalKey_uaKey
+  simp only [applyRule, this, uaLineOfValues]
+
+example : prefixFold [117, 115, 101, 114, 45] uaKey = true ∧                                 -- "user-"
+    hopUA stackOrder none [.removePrefix [117, 115, 101, 114, 45]]
+      [(uaKey, [[99, 117, 114, 108, 47, 56, 46, 48]])] = none := by decide
+
+/-- `User-Agent: value` on a request that has no such field when the rule runs: the hop receives
+    exactly that value (trimmed as `Request.write` trims it) -/
+theorem c16_stack_add_user_agent (cred : Option Bytes) (rs : List Rule) (h : HMap) {n v : Bytes}
+    (hn : canonicalKey n = uaKey) (hv : v ≠ []) (habs : HMap.get (applyRules rs h) uaKey = none) :
+    hopUA stackOrder cred (rs ++ [.add n v]) h = some (trimString (newlineToSpace v)) := by
+  rw [c16_stack_written_user_agent, applyRules_append_one]
+  have := get_goAdd_self (applyRules rs h) n v
+  rw [hn, habs] at this
+  simp only [applyRule, this, Option.getD_none, List.nil_append, uaLineOfValues, hv, if_false]
+
+example : hopUA stackOrder none [.add uaKey [112, 114, 111, 98, 101, 47, 49, 46, 48]] [] =
+    some [112, 114, 111, 98, 101, 47, 49, 46, 48] := by decide
+
+/-- `User-Agent;` as the last rule: the map holds the empty value and `Request.write` writes NO line
+    for an empty value (the hop cannot be sent an empty-valued `User-Agent`; stated as the code is) -/
+theorem c16_stack_empty_user_agent (cred : Option Bytes) (rs : List Rule) (h : HMap) {n : Bytes}
+    (hn : canonicalKey n = uaKey) : hopUA stackOrder cred (rs ++ [.empty n]) h = none := by
+  rw [c16_stack_written_user_agent, applyRules_append_one]
+  have := get_goSet_self (applyRules rs h) n []
+  rw [hn] at this
+  simp only [applyRule, this, uaLineOfValues, if_true]
+
+example : hopUA stackOrder none [.empty uaKey] [(uaKey, [[99, 117, 114, 108, 47, 56, 46, 48]])] = none := by
+  decide
+
+/-- an `Authorization` with a non-empty first value after the rules (e.g. added by a rule) suppresses
+    the configured site credentials: the hop receives what the rules left -/
+theorem c16_stack_rule_authorization_wins (cred : Option Bytes) (rs : List Rule) (h : HMap)
+    (hne : goGet1 (applyRules rs h) authKey ≠ []) :
+    hopAuthorization stackOrder cred rs h = (HMap.get (applyRules rs h) authKey).getD [] := by
+  unfold hopAuthorization
+  rw [runStack_stackOrder, get_setEmptyUserAgent_auth]
+  unfold setBasicAuth
+  cases cred with
+  | none => rfl
+  | some a =>
+    have : (goGet1 (applyRules rs h) authKey == []) = false := by simpa using hne
+    simp only [this, Bool.false_eq_true, if_false]
+
+/-- `Authorization: value` on a request without the field: the hop receives exactly that value, also
+    when site credentials for the origin are configured -/
+theorem c16_stack_add_authorization (cred : Option Bytes) (rs : List Rule) (h : HMap) {n v : Bytes}
+    (hn : canonicalKey n = authKey) (hv : v ≠ []) (habs : HMap.get (applyRules rs h) authKey = none) :
+    hopAuthorization stackOrder cred (rs ++ [.add n v]) h = [v] := by
+  have hg : HMap.get (applyRules (rs ++ [.add n v]) h) authKey = some [v] := by
+    rw [applyRules_append_one]
+    have := get_goAdd_self (applyRules rs h) n v
+    rw [hn, habs] at this
+    simpa [applyRule] using this
+  rw [c16_stack_rule_authorization_wins]
+  · rw [hg]; rfl
+  · rw [goGet1_eq, hg]; exact hv
+
+example : hopAuthorization stackOrder (some [66, 97, 115, 105, 99, 32, 99, 50, 108, 48, 90, 81, 61, 61])
+    [.add authKey [66, 101, 97, 114, 101, 114, 32, 114]] [] = [[66, 101, 97, 114, 101, 114, 32, 114]] := by decide
+
+/-- … and when the rules leave no `Authorization` (or one whose first value is empty — `Header.Get`
+    cannot tell the two apart) the configured site credentials are what the hop receives -/
+theorem c16_stack_credentials_fill_in (a : Bytes) (rs : List Rule) (h : HMap)
+    (he : goGet1 (applyRules rs h) authKey = []) :
+    hopAuthorization stackOrder (some a) rs h = [a] := by
+  unfold hopAuthorization
+  rw [runStack_stackOrder, get_setEmptyUserAgent_auth]
+  unfold setBasicAuth
+  have : (goGet1 (applyRules rs h) authKey == []) = true := by simpa using he
+  simp only [this, if_true]
+  have := get_goSet_self (applyRules rs h) authKey a
+  rw [canonicalKey_authKey] at this
+  rw [this]; rfl
+
+example : hopAuthorization stackOrder (some [66, 97, 115, 105, 99, 32, 99, 50, 108, 48, 90, 81, 61, 61])
+    [.remove authKey] [(authKey, [[66, 101, 97, 114, 101, 114, 32, 114]])] =
+      [[66, 97, 115, 105, 99, 32, 99, 50, 108, 48, 90, 81, 61, 61]] := by decide
+
+/-- the order matters: with the built-in modifiers registered BEFORE the user's rules
+    (`builtinsFirst`) `-User-Agent` on a request from "curl/8.0" makes the hop receive the library's
+    "Go-http-client/1.1" (the code's order: no line) … -/
+theorem c16_builtins_first_breaks_remove_user_agent :
+    hopUA builtinsFirst none [.remove uaKey] [(uaKey, [[99, 117, 114, 108, 47, 56, 46, 48]])] = some goDefaultUA ∧
+    hopUA stackOrder none [.remove uaKey] [(uaKey, [[99, 117, 114, 108, 47, 56, 46, 48]])] = none := by decide
+
+/-- … "User-Agent: probe/1.0" on a request without the field is lost (the planted empty value stays
+    first; the code's order: the hop receives "probe/1.0") … -/
+theorem c16_builtins_first_breaks_add_user_agent :
+    hopUA builtinsFirst none [.add uaKey [112, 114, 111, 98, 101, 47, 49, 46, 48]] [] = none ∧
+    hopUA stackOrder none [.add uaKey [112, 114, 111, 98, 101, 47, 49, 46, 48]] [] =
+      some [112, 114, 111, 98, 101, 47, 49, 46, 48] := by decide
+
+/-- … and a rule-added "Authorization: Bearer r" no longer suppresses the site credentials
+    "Basic c2l0ZQ==": the hop receives both (the code's order: the rule's value alone) -/
+theorem c16_builtins_first_breaks_authorization :
+    hopAuthorization builtinsFirst (some [66, 97, 115, 105, 99, 32, 99, 50, 108, 48, 90, 81, 61, 61])
+      [.add authKey [66, 101, 97, 114, 101, 114, 32, 114]] [] =
+        [[66, 97, 115, 105, 99, 32, 99, 50, 108, 48, 90, 81, 61, 61], [66, 101, 97, 114, 101, 114, 32, 114]] ∧
+    hopAuthorization stackOrder (some [66, 97, 115, 105, 99, 32, 99, 50, 108, 48, 90, 81, 61, 61])
+      [.add authKey [66, 101, 97, 114, 101, 114, 32, 114]] [] = [[66, 101, 97, 114, 101, 114, 32, 114]] := by decide
+
+/-- hence the three hop-level clauses above are NOT theorems of an arbitrary order of the stages -/
+theorem c16_stack_order_needed :
+    ¬ (∀ order cred rs h, hopUA order cred (rs ++ [.remove uaKey]) h = none) ∧
+    ¬ (∀ order cred rs h, HMap.get (applyRules rs h) authKey = none →
+        hopAuthorization order cred (rs ++ [.add authKey [66, 101, 97, 114, 101, 114, 32, 114]]) h =
+          [[66, 101, 97, 114, 101, 114, 32, 114]]) := by
+  refine ⟨fun hall => ?_, fun hall => ?_⟩
+  · have := hall builtinsFirst none [] [(uaKey, [[99, 117, 114, 108, 47, 56, 46, 48]])]
+    rw [List.nil_append, c16_builtins_first_breaks_remove_user_agent.1] at this
+    exact absurd this (by decide)
+  · have := hall builtinsFirst (some [66, 97, 115, 105, 99, 32, 99, 50, 108, 48, 90, 81, 61, 61]) [] [] rfl
+    rw [List.nil_append, c16_builtins_first_breaks_authorization.1] at this
+    exact absurd this (by decide)
 
 end C16
 end FwdVerif
